@@ -5,6 +5,9 @@
 // reveal entry point of Acra (owner identity). Oracle: error, or exactly the original
 // plaintext; transparent column processors hand the value back unchanged (or with the intact
 // envelope replaced by the original plaintext); never a panic.
+// rows.go: row histories through one shared subscriber chain. session.go: the altered values behind
+// the real MySQL and PostgreSQL proxies in whole sessions (what the client receives, decoded according
+// to the announced type, for a value that failed to reveal).
 package main
 
 import (
@@ -162,6 +165,10 @@ func main() {
 			w.Close()
 			r.Finish()
 		}
+		if sessionReplay(r, l) { // replay files of the session part (session.go)
+			w.Close()
+			r.Finish()
+		}
 		var c caseT
 		r.LoadReplay(&c)
 		for _, rv := range envl.Revealers {
@@ -248,11 +255,14 @@ func main() {
 	if done < len(jobs) {
 		r.Capped(fmt.Sprintf("wall budget: %d of %d evaluations done", done, len(jobs)))
 	}
-	r.Rule("state = one altered stored value (6 stored forms x plaintext sizes x {every bit flip, every truncation, suffix menu, every header field x boundary values, splices at all field boundaries within and across clients, hash swaps}); transition = that value presented to one of the reveal entry points under the owner identity; distinct_nontrivial counts distinct (entry point, form, alteration kind/field, outcome class) tuples")
+	sessionPart(r, l) // whole sessions through the real proxies (session.go); last: it switches the process-wide SQL dialect
+	r.Rule("state = one altered stored value (6 stored forms x plaintext sizes x {every bit flip, every truncation, suffix menu, every header field x boundary values, splices at all field boundaries within and across clients, hash swaps}); transition = that value presented to one of the reveal entry points under the owner identity; distinct_nontrivial counts distinct (entry point, form, alteration kind/field, outcome class) tuples; session part: state = (database MySQL / PostgreSQL, protocol text / prepared+binary, column configuration (encrypted, searchable, data_type str / bytes / int32 / int64 x every accepted failure policy), envelope, alteration of the stored value from the menu {intact, one bit flipped in every field of the stored form, cut by 1 byte, cut to half, cut to 4 / 8 bytes, 1 byte appended, payload of another row, hash of another value}); transition = one lock-step exchange of a fresh owner session through the real proxy against a scripted table holding the altered value; the field received is decoded with the independent codec according to the announced type and format; distinct (database, protocol, configuration, alteration class, outcome class)")
 	r.Set("entry_points", len(envl.Revealers))
 	r.Set("plaintext_sizes", sizes)
 	r.Assume("Themis is replaced by the pure-Go stand-in /verif/shim/gothemis (AEAD assumption: any change to ciphertext, tag, nonce, context or key makes decryption fail)",
-		"alterations are single edits (thorough: pairs of numeric field edits) of values produced for plaintext sizes listed in plaintext_sizes")
+		"alterations are single edits (thorough: pairs of numeric field edits) of values produced for plaintext sizes listed in plaintext_sizes",
+		"session part: the database end is the scripted database of verif/mycheck (MySQL) / the reference database verif/sess/pgdb.go (PostgreSQL), the client end the independent codecs verif/sess/mycodec.go and pgproto3; the valid stored values are written by the proxy itself, one row per result set (a result set mixing revealed and unrevealed rows of one column is the subject of C19)",
+		"session part: stored bytes delivered under an integer announcement that no client can decode as an integer (message still well-formed) count as a failure on the client's side, not as other plaintext; stored bytes in the database's own text encoding (PostgreSQL \\x hex) count as the stored bytes; which policy outcome is delivered is not judged here (C19)")
 	w.Close()
 	r.Finish()
 }
